@@ -14,10 +14,12 @@ Round 2: the full round trip is proven.
   * `norm_idempotent`, `format_idempotent_tokens` — what the formatter drops is dropped once (every program).
   * `WF` (every statement is one the parser can produce) is decidable; `format_correct_checked` is the form the driver
     uses: it evaluates `wfApiB` on every AST the model parser builds.
-  Still missing for a hypothesis-free statement: `parse ts = some a → WF a` (inversion of the parser functions); and
-  everything about layout (comments, alignment, textual idempotence) is tested by the driver, not proven.
+  Round 5c: `parse_wf` (INVERSION of the parser model: `parse ts = some a → WF a`, by induction over every parser
+  function, ProofsInv.lean) makes the round trip unconditional: `parse_print_parsed`, `format_correct_parsed`.
+  Everything about layout (comments, alignment, textual idempotence) is tested by the driver, not proven.
 -/
 import GoZero.C20.WfDec
+import GoZero.C20.ProofsInv
 namespace GoZero.C20
 
 /-- every data type: the parser reads back what the printer wrote, whatever follows -/
@@ -66,7 +68,7 @@ theorem type_expr_roundtrip (e : TExpr) (f : Nat) (rest : List Tok) (hn : isKw e
       simp [parseTExpr, printTExpr, tk, hn, hq, ih]
 
 /-- `type Name [=] T` as a statement: `parseStmt` reads back the declaration that `printStmt` wrote. -/
-theorem type_decl_roundtrip_partial (e : TExpr) (f : Nat) (rest : List Tok) (hn : isKw e.name = false)
+theorem type_decl_roundtrip (e : TExpr) (f : Nat) (rest : List Tok) (hn : isKw e.name = false)
     (hw : wfDT e.ty) (hf : szDT e.ty ≤ f) :
     parseStmt f (printStmt (.typeLit e) ++ rest) = some (.typeLit e, rest) := by
   have h := type_expr_roundtrip e f rest hn hw hf
@@ -254,5 +256,31 @@ theorem sampleApi_wf : WF sampleApi := by
 
 example : ∃ b, parse (format sampleApi) = some b ∧ sameDesc sampleApi b = true ∧ format b = format sampleApi ∧ WF b :=
   format_correct sampleApi sampleApi_wf
+
+
+/-! ### round 5c: no per-program premise -/
+
+/-- INVERSION: every AST the parser model builds is well-formed -/
+theorem parse_wf (ts : List Tok) (a : Api) (h : parse ts = some a) : WF a := parse_inv ts a h
+
+/-- THE ROUND TRIP WITHOUT PREMISE: whatever the parser accepted is read back from the tokens the formatter writes -/
+theorem parse_print_parsed (ts : List Tok) (a : Api) (h : parse ts = some a) : parse (print a) = some a :=
+  parse_print a (parse_wf ts a h)
+
+/-- the property, for every token stream the parser accepts: the formatted tokens parse, to the same API description,
+and a second pass writes the same tokens -/
+theorem format_correct_parsed (ts : List Tok) (a : Api) (h : parse ts = some a) :
+    ∃ b, parse (format a) = some b ∧ sameDesc a b = true ∧ format b = format a ∧ WF b :=
+  format_correct a (parse_wf ts a h)
+
+/-- `wfApiB` (what the driver evaluates) can never fail on an AST of the parser model -/
+theorem parse_wfApiB (ts : List Tok) (a : Api) (h : parse ts = some a) : wfApiB a = true :=
+  decide_eq_true (parse_wf ts a h)
+
+example : ∃ a, parse (print sampleApi) = some a ∧ WF a :=
+  ⟨sampleApi, parse_print sampleApi sampleApi_wf, parse_wf _ _ (parse_print sampleApi sampleApi_wf)⟩
+
+/-- the colon form of a path item may be any identifier, `returns` included (the parser does not test it there) -/
+example : wfSeg { colon := true, hk := .IDENT, head := "returns", tail := [] } := by simp [wfSeg]
 
 end GoZero.C20
